@@ -1,11 +1,126 @@
 #!/usr/bin/env python3
 """Authoring aid (not run by ./check): writes WinterProofs/Lemmas/C11Round12.lean and C11Round8.lean:
-under the (unproved, correspondence-covered) plumbing statement `mm_eq_tail_statement`, the MDS step and
+the MDS step and
 one full round of the 64-bit Rescue instances on raw words denote the reference round on residues."""
 import re, os
 L = os.path.dirname(os.path.dirname(os.path.dirname(os.path.abspath(__file__))))
 
+
+TAIL = r"""
+/-! ### the permutation -/
+
+theorem explicit{N} (l : List Nat) (h : l.length = {N}) : ∃ {xs} : Nat, l = [{xl}] := by
+{cases}
+  · exact ⟨{exs}, rfl⟩
+  · simp at h
+
+theorem mds_len (l : List Nat) (h : l.length = {N}) : ({mdsfn} l).length = {N} := by
+  obtain ⟨{xlc}, rfl⟩ := explicit{N} l h
+  show (match Gen.{mod}.mds_multiply {xs} with
+    | ({rl}) => [{rl}]).length = {N}
+  generalize Gen.{mod}.mds_multiply {xs} = t
+  obtain ⟨{rlc}⟩ := t
+  rfl
+
+/-- the round on lists of the right length -/
+theorem round_list (st k1 k2 : List Nat)
+    (hl : st.length = {N}) (hl1 : k1.length = {N}) (hl2 : k2.length = {N}) (hs : AllInv S64 st)
+    (h1 : ∀ k ∈ k1, k ≤ 18446744065119617025) (h2 : ∀ k ∈ k2, k ≤ 18446744065119617025) :
+    (roundWith {inst} st k1 k2).length = {N} ∧ AllInv S64 (roundWith {inst} st k1 k2) ∧
+    (roundWith {inst} st k1 k2).map val = refRound (st.map val) (k1.map val) (k2.map val) := by
+  have hlen : (roundWith {inst} st k1 k2).length = {N} := by
+    have e : roundWith {inst} st k1 k2 = List.zipWith Gen.F64.add
+        ({mdsfn} ((List.zipWith Gen.F64.add ({mdsfn} (st.map Gen.F64.exp7)) k1).map Model.Rescue.F64.invSbox)) k2 := rfl
+    rw [e, List.length_zipWith, mds_len _ (by rw [List.length_map, List.length_zipWith, mds_len _ (by rw [List.length_map, hl]), hl1]; exact Nat.min_self {N}), hl2]
+    exact Nat.min_self {N}
+  obtain ⟨{xlc}, rfl⟩ := explicit{N} st hl
+  obtain ⟨{alc}, rfl⟩ := explicit{N} k1 hl1
+  obtain ⟨{blc}, rfl⟩ := explicit{N} k2 hl2
+  have r := round_spec {xs} {as_} {bs_}
+    {hsx}
+    {h1a}
+    {h2b}
+  exact ⟨hlen, r.1, r.2⟩
+
+def rowsLen (t : List (List Nat)) : Bool := t.all fun r => decide (r.length = {N})
+
+theorem ark_rows_len : rowsLen Gen.{rp}.ARK1 = true ∧ rowsLen Gen.{rp}.ARK2 = true := by
+  constructor <;> decide +kernel
+
+def GoodK (k1 k2 : List Nat) : Prop :=
+  k1.length = {N} ∧ k2.length = {N} ∧ (∀ k ∈ k1, k ≤ 18446744065119617025) ∧ (∀ k ∈ k2, k ≤ 18446744065119617025)
+
+theorem row_good {{t : List (List Nat)}} (hs : Misc.arkSmall t = true) (hl : rowsLen t = true) {{r : List Nat}} (hr : r ∈ t) :
+    (r.map Gen.F64.new).length = {N} ∧ ∀ k ∈ r.map Gen.F64.new, k ≤ 18446744065119617025 := by
+  constructor
+  · rw [List.length_map]
+    have := (List.all_eq_true.mp hl) r hr
+    simpa using this
+  · intro k hk
+    obtain ⟨c, hc, rfl⟩ := List.mem_map.mp hk
+    have := (List.all_eq_true.mp ((List.all_eq_true.mp hs) r hr)) c hc
+    simpa using this
+
+theorem ark_good : ∀ k ∈ List.zip {inst}.ark1 {inst}.ark2, GoodK k.1 k.2 := by
+  rintro ⟨ka, kb⟩ hk
+  obtain ⟨h1, h2⟩ := List.of_mem_zip hk
+  have e1 : {inst}.ark1 = Gen.{rp}.ARK1.map (fun r => r.map Gen.F64.new) := rfl
+  have e2 : {inst}.ark2 = Gen.{rp}.ARK2.map (fun r => r.map Gen.F64.new) := rfl
+  rw [e1] at h1
+  rw [e2] at h2
+  obtain ⟨r1, hr1, q1⟩ := List.mem_map.mp h1
+  obtain ⟨r2, hr2, q2⟩ := List.mem_map.mp h2
+  rw [← q1, ← q2]
+  have g1 := row_good Misc.{small}.1 ark_rows_len.1 hr1
+  have g2 := row_good Misc.{small}.2 ark_rows_len.2 hr2
+  exact ⟨g1.1, g2.1, g1.2, g2.2⟩
+
+/-- the reference permutation: the reference rounds with the constants of the tables, as residues -/
+noncomputable def refPerm (v : List (ZMod P)) : List (ZMod P) :=
+  (List.zip {inst}.ark1 {inst}.ark2).foldl (fun v k => refRound v (k.1.map val) (k.2.map val)) v
+
+/-- `apply_permutation` on valid raw words denotes the reference permutation -/
+theorem perm_sem (st : List Nat) (hl : st.length = {N})
+    (hs : AllInv S64 st) :
+    (applyPermutation {inst} st).length = {N} ∧ AllInv S64 (applyPermutation {inst} st) ∧
+    (applyPermutation {inst} st).map val = refPerm (st.map val) :=
+  fold_sem S64 {inst} {N} GoodK refRound
+    (fun st k1 k2 hl hi hg => round_list st k1 k2 hl hg.1 hg.2.1 hi hg.2.2.1 hg.2.2.2)
+    (List.zip {inst}.ark1 {inst}.ark2) st ark_good hl hs
+
+/-- the permutation as the sponge sees it -/
+noncomputable def perm : PermSem {inst} P where
+  S := S64
+  refPerm := refPerm
+  perm_ok := fun st hl hs => perm_sem st hl hs
+
+end WinterProofs.C11.Round{N}
+"""
+
+def mk_tail(mod, rp, inst, mdsfn, N):
+    R = range(N)
+    cases = ''
+    ind = '  '
+    for i in R:
+        cases += f"{ind}rcases l with _ | ⟨x{i}, l⟩\n{ind}· simp at h\n"
+    cases += f"{ind}rcases l with _ | ⟨y, l⟩"
+    d = dict(N=N, mod=mod, rp=rp, inst=inst, mdsfn=mdsfn,
+        xs=' '.join(f'x{i}' for i in R), xl=', '.join(f'x{i}' for i in R), exs=', '.join(f'x{i}' for i in R),
+        cases=cases,
+        xlc=', '.join(f'x{i}' for i in R), alc=', '.join(f'a{i}' for i in R), blc=', '.join(f'b{i}' for i in R),
+        as_=' '.join(f'a{i}' for i in R), bs_=' '.join(f'b{i}' for i in R),
+        hsx=' '.join(f'(hs x{i} (by simp))' for i in R),
+        h1a=' '.join(f'(h1 a{i} (by simp))' for i in R),
+        h2b=' '.join(f'(h2 b{i} (by simp))' for i in R),
+        rl=', '.join(f'r{i}' for i in R), rlc=', '.join(f'r{i}' for i in R),
+        small='rp64_ark_small' if inst == 'rp64' else 'jive_ark_small')
+    t = TAIL
+    for k, v in d.items():
+        t = t.replace('{' + k + '}', str(v))
+    return t.replace('{{', '{').replace('}}', '}')
+
 def gen(mod, rp, inst, mdsfn, N):
+    tail_txt = mk_tail(mod, rp, inst, mdsfn, N)
     s = open(f'{L}/Winter/Gen/{rp}.lean').read()
     mds = eval(re.search(r'def MDS : List \(List Nat\) := (\[\[.*?\]\])', s).group(1))
     R = range(N)
@@ -36,27 +151,27 @@ def gen(mod, rp, inst, mdsfn, N):
     kl = lambda n: ', '.join(f'{n}{i}' for i in R)
     kh = lambda n: ' '.join(f'(h{n}{i} : {n}{i} ≤ 18446744065119617025)' for i in R)
     xinv = ' '.join(f'(hx{i} : Inv x{i})' for i in R)
-    out = f'''-- C11 helper lemmas ({inst}): under the plumbing statement `{mod}.mm_eq_tail_statement` (NOT proved in
--- Lean, covered by the correspondence harness) the MDS step and one full round on raw words denote
+    out = f'''-- C11 helper lemmas ({inst}): the MDS step (through `{mod}.mm_eq_tail`) and one full round on raw words denote
 -- the reference round on residues.  Written by gen_c11_round.py; checked by Lean.
 import Winter.Model.Rescue
 import WinterProofs.Lemmas.C07F64Z
 import WinterProofs.Lemmas.C11{mod}
 import WinterProofs.Lemmas.C11RoundCommon
 import WinterProofs.Lemmas.C11Sbox
+import WinterProofs.Lemmas.C11Sem
 set_option linter.unusedSimpArgs false
 set_option linter.unusedVariables false
 set_option maxRecDepth 100000
 
 namespace WinterProofs.C11.Round{N}
-open Gen Model Model.Rescue WinterProofs.F64Z WinterProofs.C11 WinterProofs.C11.RoundCommon
+open Gen Model Model.Rescue WinterProofs.F64Z WinterProofs.C11 WinterProofs.C11.RoundCommon WinterProofs.C11.Sem
 
 /-- `apply_mds` on ANY 64-bit raw words: 64-bit words whose residues are the matrix-vector product -/
-theorem mds_spec (hglue : WinterProofs.C11.{mod}.mm_eq_tail_statement) ({xs} : Nat) {xh} :
+theorem mds_spec ({xs} : Nat) {xh} :
     ∃ {ys} : Nat, {mdsfn} [{xl}] = [{yl}] ∧
       {spec} := by
 {hl}
-  have hg := hglue {xs}
+  have hg := WinterProofs.C11.{mod}.mm_eq_tail {xs}
   rw [WinterProofs.C11.{mod}.freq_eq_tuple {us} {hhs}, WinterProofs.C11.{mod}.freq_eq_tuple {us} {hls}] at hg
   dsimp only at hg
 {facts}
@@ -81,8 +196,7 @@ theorem mds_table_eq : Gen.{rp}.MDS = {mds_lit} := by decide
 
 /-- one round on valid raw words, with round constants whose raw words are `<= p - 2^32`: the
     result consists of valid raw words and denotes the reference round -/
-theorem round_spec (hglue : WinterProofs.C11.{mod}.mm_eq_tail_statement)
-    ({xs} {ks('a')} {ks('b')} : Nat) {xinv}
+theorem round_spec ({xs} {ks('a')} {ks('b')} : Nat) {xinv}
     {kh('a')}
     {kh('b')} :
     (∀ e ∈ roundWith {inst} [{xl}] [{kl('a')}] [{kl('b')}], Inv e) ∧
@@ -96,10 +210,10 @@ theorem round_spec (hglue : WinterProofs.C11.{mod}.mm_eq_tail_statement)
   have hI : Gen.{rp}.INV_ALPHA = Gen.Rp64.INV_ALPHA := by decide
 ''' + '\n'.join(f'  have s{i} := Sbox.F64.exp7_pow x{i} hx{i}' for i in R) + f'''
   obtain ⟨{', '.join(f'y{i}' for i in R)}, hy, {', '.join(f'⟨by{i}, vy{i}⟩' for i in R)}⟩ :=
-    mds_spec hglue {' '.join(f'(Gen.F64.exp7 x{i})' for i in R)} {' '.join(f'(Nat.lt_trans s{i}.1 (by decide))' for i in R)}
+    mds_spec {' '.join(f'(Gen.F64.exp7 x{i})' for i in R)} {' '.join(f'(Nat.lt_trans s{i}.1 (by decide))' for i in R)}
 ''' + '\n'.join(f'  have c{i} := add_any y{i} a{i} by{i} ha{i}' for i in R) + '\n' + '\n'.join(f'  have t{i} := Sbox.F64.invSbox_pow (Gen.F64.add y{i} a{i}) c{i}.1' for i in R) + f'''
   obtain ⟨{', '.join(f'z{i}' for i in R)}, hz, {', '.join(f'⟨bz{i}, vz{i}⟩' for i in R)}⟩ :=
-    mds_spec hglue {' '.join(f'(Model.Rescue.F64.invSbox (Gen.F64.add y{i} a{i}))' for i in R)} {' '.join(f'(Nat.lt_trans t{i}.1 (by decide))' for i in R)}
+    mds_spec {' '.join(f'(Model.Rescue.F64.invSbox (Gen.F64.add y{i} a{i}))' for i in R)} {' '.join(f'(Nat.lt_trans t{i}.1 (by decide))' for i in R)}
 ''' + '\n'.join(f'  have d{i} := add_any z{i} b{i} bz{i} hb{i}' for i in R) + f'''
   have hr : roundWith {inst} [{xl}] [{kl('a')}] [{kl('b')}]
       = [{', '.join(f'Gen.F64.add z{i} b{i}' for i in R)}] := by
@@ -121,8 +235,8 @@ theorem round_spec (hglue : WinterProofs.C11.{mod}.mm_eq_tail_statement)
       {', '.join(f'vy{i}' for i in R)},
       {', '.join(f's{i}.2' for i in R)}]
 
-end WinterProofs.C11.Round{N}
-'''
+TAILPLACEHOLDER'''
+    out = out.replace('TAILPLACEHOLDER', tail_txt)
     open(f'{L}/WinterProofs/Lemmas/C11Round{N}.lean', 'w').write(out)
 
 gen('Mds12', 'Rp64', 'rp64', 'mds12', 12)
